@@ -33,7 +33,8 @@ Del(t, x) == [k |-> "del", inner |-> t, x |-> x]
 Prims == { Bool, U(2, "s"), U(3, "t"), I(3), U(8, "s"), F(16), V(3) }
 Comp  == St(<<U(3, "s")>>)
 DComp == Del(St(<<U(8, "s")>>), 16)              \* a delimited sibling whose extent exceeds its content
-Sibs  == { Bool, U(5, "t"), Comp, DComp, Var(U(2, "s"), 2) }
+DUn   == Del(Un(<<Bool, U(8, "s")>>), 24)        \* a delimited union sibling: its bool variant ends off a byte boundary
+Sibs  == { Bool, U(5, "t"), Comp, DComp, DUn, Var(U(2, "s"), 2) }
 NonVoid(t) == t.k # "void"
 Elem(t) == t.k \notin {"void", "fix", "var"}
 
